@@ -179,7 +179,26 @@ def deepcopy_ir():
         if isinstance(st, ast.Assign) and len(st.targets) == 1 and isinstance(st.targets[0], ast.Attribute):
             t = st.targets[0]
             later.append((ast.unparse(t.value), t.attr, ast.unparse(st.value)))
+        elif isinstance(st, ast.Expr) and isinstance(st.value, ast.Call) and isinstance(st.value.func, ast.Attribute):
+            c = st.value
+            later.append((ast.unparse(c.func.value), c.func.attr + '()', ', '.join(ast.unparse(a) for a in c.args)))
     return kw, later
+
+
+def deepcopy_source(kw, later):
+    """FromKwargs: the copy is built from the constructor's keyword arguments only.  FromAttributes: it receives a COPY of
+    the current attribute dictionary.  Anything else (in particular sharing the dictionary) is UnknownSource."""
+    def is_copy_of_attrs(expr):
+        e = expr.replace(' ', '')
+        return e in ('copy.deepcopy(self._attributes)', 'copy.deepcopy(self.attributes)', 'dict(self._attributes)', 'dict(self.attributes)',
+                     '{**self._attributes}', '{**self.attributes}', 'copy.copy(self._attributes)', 'self._attributes.copy()', 'self.attributes.copy()')
+    on_copy = [(a, v) for obj, a, v in later if obj == 'copied' and a in ('_attributes', '_set_attributes()')]
+    star = kw.get('**')
+    if star == 'self._kwargs' and not on_copy:
+        return 'FromKwargs'
+    if star is None and len(on_copy) == 1 and is_copy_of_attrs(on_copy[0][1]):
+        return 'FromAttributes'
+    return 'UnknownSource'
 
 
 def cq(s):
@@ -234,12 +253,16 @@ def main():
     try:
         kw, later = deepcopy_ir()
         side['deepcopy'] = {'ctor_kwargs': kw, 'later': later}
+        src = deepcopy_source(kw, later)
+        side['deepcopy']['source'] = src
         o.append('Definition tr_deepcopy_ok := true.')
+        o.append('Definition deepcopy_source_name : string := %s.' % cq(src))
         o.append('Definition deepcopy_ctor : list (string * string) := [' + '; '.join('(%s, %s)' % (cq(k), cq(v)) for k, v in sorted(kw.items())) + '].')
         o.append('Definition deepcopy_later : list (string * string * string) := [' + '; '.join('(%s, %s, %s)' % (cq(a), cq(b), cq(c)) for a, b, c in later) + '].')
     except Fail as ex:
         side['deepcopy'] = 'FAILED: ' + str(ex)
         o.append('Definition tr_deepcopy_ok := false.')
+        o.append('Definition deepcopy_source_name : string := "UnknownSource".')
         o.append('Definition deepcopy_ctor : list (string * string) := [].')
         o.append('Definition deepcopy_later : list (string * string * string) := [].')
     ch = write_if_changed(os.path.join(VERIF, 'coq', 'Gen', 'Code.v'), '\n'.join(o) + '\n')
